@@ -6,8 +6,9 @@ answers for probes that land in continuation lines.
 I->S: Probe traces of the real binary search validated against TraceBinSearch.tla.
 S->I: generated chronological files (tie groups, multi-line messages, sub-second instants) x windows placed before /
 between / exactly on / after instants, A = B x block sizes x plain (binary search) / gz (linear search), in-process
-(SyslineReader, SyslogProcessor) and end-to-end through -a / -b; record files, evtx and journals are covered by the
-windows of C08 / C10 / C09 which share this oracle."""
+(SyslineReader, SyslogProcessor) and end-to-end through -a / -b in several spellings of the same instants; an event log
+(windows on and around every stored-out-of-order record), an accounting file not stored chronologically and a journal
+are windowed here as well (ground truth: evtx_dump, generator, journalctl); C08 / C10 / C09 go deeper per kind."""
 import json
 import os
 import random
@@ -274,12 +275,84 @@ def run(pid, tier, seed):
                 else:
                     fl, arg = {"f%d.tar" % fi: gen.tar_bytes([(name, blob)])}, "f%d.tar" % fi
                 argv = ["--color", "never", "--blocksz", str(rng.choice([64, 100, 4096, 65536]))]
+                # the same instants zone-less (under -t +00:00) or with a numeric offset written on the values
+                woff = rng.choice([None, None, 60, -480, 330, 825])
                 if a is not None:
-                    argv += ["-a", cli_dt(a)]
+                    argv += ["-a", gen.fmt_ts(a[0], a[1], woff, 6)]
                 if b is not None:
-                    argv += ["-b", cli_dt(b)]
+                    argv += ["-b", gen.fmt_ts(b[0], b[1], woff, 6)]
                 exp = b"".join(m[2] for m in select(msgs, a, b))
                 cases.append((Case(fl, argv + [arg], exp, note={"after": a, "before": b, "container": cont}), msgs))
+
+        # ---- the other kinds: an event log with records stored out of time order (windows placed on and around every
+        #      inversion), an accounting file not stored chronologically, a journal; every bound in several spellings
+        other_runs = 0
+        from . import c10, c08, c09
+        import re as _re
+        import shutil as _sh
+        od = os.path.join(sc, "other")
+        os.makedirs(od)
+        common.build_harness(["evtx_dump"])
+        ev_src = os.path.join(common.REPO, c10.EVTX)
+        _sh.copyfile(ev_src, os.path.join(od, "k.evtx"))
+        ev = c10.dump(ev_src)
+        ev_emit = sorted(ev, key=lambda x: ((x["secs"], x["nanos"]), x["idx"]))
+        inv = [i for i in range(len(ev) - 1) if (ev[i]["secs"], ev[i]["nanos"]) > (ev[i + 1]["secs"], ev[i + 1]["nanos"])]
+        pts = set()
+        for i in inv:
+            for j in (i - 1, i, i + 1, i + 2):
+                if 0 <= j < len(ev):
+                    t = (ev[j]["secs"], ev[j]["nanos"])
+                    pts |= {t, (t[0], t[1] + 1000), (t[0], max(0, t[1] - 1000)), (t[0] + 1800, t[1]), (t[0] - 1800, t[1])}
+        pts = sorted(pts)
+        if tier == "quick" and len(pts) > 14:
+            pts = rng.sample(pts, 14)
+        ojobs = []
+        for t in pts:
+            ojobs += [("k.evtx", None, t), ("k.evtx", t, None), ("k.evtx", t, t)]
+        nc = [(gen.BASE + 905, 0), (gen.BASE + 1805, 0), (gen.BASE + 5, 0), (gen.BASE + 1205, 5000), (gen.BASE + 2, 7000), (gen.BASE + 905, 0)]
+        with open(os.path.join(od, "nc.wtmp"), "wb") as f:
+            f.write(b"".join(gen.utmp_record(7, 2000 + i, b"pts/%d" % i, b"n%d" % i, b"v%d" % i, b"g%d" % i, s_, n_ // 1000) for i, (s_, n_) in enumerate(nc)))
+        for t in sorted(set(nc)):
+            ojobs += [("nc.wtmp", None, t), ("nc.wtmp", t, None), ("nc.wtmp", t, t), ("nc.wtmp", (t[0], t[1] + 1000), None)]
+        jd, jplain, jtruth = c09.prepare(sc, "u22x3")
+        _sh.copyfile(jplain, os.path.join(od, "u.journal"))
+        for us in sorted(set(jtruth)):
+            t = (us // 10**6, (us % 10**6) * 1000)
+            ojobs += [("u.journal", None, t), ("u.journal", t, None), ("u.journal", t, t), ("u.journal", (t[0], t[1] + 1000), None)]
+
+        def odo(ij):
+            i, (fname, a, b) = ij
+            sp = gen.WINDOW_SPELLINGS[i % len(gen.WINDOW_SPELLINGS)]
+            tmp = os.path.join(od, "tmp%d" % i)
+            os.makedirs(tmp)
+            extra = ["--journal-output", "export"] if fname.endswith(".journal") else []
+            rr = common.run_s4(["--color", "never"] + extra + gen.window_argv(a, b, sp) + [fname], cwd=od, tmpdir=tmp, timeout=120, tz_args=False)
+            _sh.rmtree(tmp, ignore_errors=True)
+            return rr, sp
+
+        with ThreadPoolExecutor(max_workers=8) as ex:
+            oruns = list(ex.map(odo, list(enumerate(ojobs))))
+        inwin = lambda t, a, b: (a is None or t >= a) and (b is None or t <= b)
+        for (fname, a, b), (rr, sp) in zip(ojobs, oruns):
+            other_runs += 1
+            rec = {"kind": "c03-other", "file": fname, "after": a, "before": b, "spelling": sp[0], "rc": rr.rc}
+            if rr.crashed:
+                rep.violation("other:crash:%s" % fname, "rc=%s %r" % (rr.rc, rr.err[-200:]), rec)
+                continue
+            if fname == "k.evtx":
+                want = [x["id"] for x in ev_emit if inwin((x["secs"], x["nanos"]), a, b)]
+                got = [int(x) for x in c10.RID.findall(rr.out)]
+            elif fname == "nc.wtmp":
+                order = sorted(range(len(nc)), key=lambda i: ((nc[i][0], (nc[i][1] // 1000) * 1000), i))
+                want = [2000 + i for i in order if inwin((nc[i][0], (nc[i][1] // 1000) * 1000), a, b)]
+                got = [int(x) for x in _re.findall(rb"ut_pid (\d+)", rr.out)]
+            else:
+                want = [us for us in jtruth if inwin((us // 10**6, (us % 10**6) * 1000), a, b)]
+                got = [int(x) for x in _re.findall(rb"__REALTIME_TIMESTAMP=(\d+)", rr.out)]
+            if got != want:
+                rep.violation("other:window:%s" % fname, "%s -a %s -b %s (spelled %s): selected %s..., the window holds %s..."
+                              % (fname, a, b, sp[0], got[:6], want[:6]), rec)
 
         def do(ic):
             i, (case, msgs) = ic
@@ -300,7 +373,7 @@ def run(pid, tier, seed):
                               case.replay_record(rr))
         rep.coverage = {
             "states": r.distinct, "transitions": r.generated, "traces_validated_against_impl": accepted_traces,
-            "evaluations": len(outs) + len(runs), "distinct_nontrivial": on_instant,
+            "evaluations": len(outs) + len(runs) + other_runs, "other_kind_windows": other_runs, "distinct_nontrivial": on_instant,
             "rule": "one evaluation = one (file, window, block size, container) instance in-process or end-to-end; "
                     "non-trivial = a bound exactly equal to a message instant (counted for in-process instances)",
             "samples": samples, "probe_traces": sum(1 for x in trace_recs if x["ev"] == "Reset"),
